@@ -77,7 +77,7 @@ static META: [PropertyMeta; 8] = [
         rule: "a run = one delivery: (a) an honest in-flight message (corpus value or generated typed-untyped value, half of the generated types with labels a .did author may legally quote: commas, quotes, empty, non-ASCII, numeric-looking) damaged by 0-3 channel faults (truncate, bit flip, boundary-byte substitution, span delete/duplicate, splice with another in-flight message, inflate a LEB128 length, insert bytes) or (b) a Byzantine construction (opt/vec chains up to depth 10000 with values nested up to 50000, self-referential records/variants, vectors of zero-sized elements with counts up to 2^63, table length 9999/10000/10001/2^32, argument/field counts 2^32, bad/unsorted/duplicate ids and method names, annotations, future opcodes with lengths up to 2^63, bad indices, LEB128 padding, lengths beyond the input, reference flags/lengths, bad tags); receiver = native corpus type, generated untyped types, from_bytes without type, or done() only; knobs per run: thread stack 64 KiB-8 MiB, decoding quota none/0/1-50/1000/100000, skipping quota likewise, max_type_len, full error messages on/off. distinct = distinct (receiver, message kind, outcome class, error prefix). non-trivial = the message is not an undamaged honest message.",
         assumptions: &[
             "a worker process that dies (SIGSEGV from stack overflow, SIGABRT from abort or a refused >2 GiB allocation) is identified by its journal and reported as a violation; a wall-clock watchdog backs this up",
-            "work is counted by the tick hook (element/entry loops of the decoder, deserialize_any, subtype_); with a decoding quota q: ticks <= 16 q + 64 len + 20000 and live heap <= 4e6 + 4096 len + 2048 q — constants at least 8x the largest ratios measured on the unchanged tree (recorded under measured_maxima), because the statement fixes no constants",
+            "work is counted by the tick hook (element/entry loops of the decoder, deserialize_any, subtype_); with a decoding quota q: ticks <= 16 q + 64 len + 20000 and live heap <= 64 MiB + 2 MiB len + 256 KiB q — constants at least 8x the largest ratios measured on the unchanged tree (recorded under measured_maxima) and 8x serde's cautious 1 MiB pre-allocation per in-progress container, because the statement fixes no constants",
             "without a decoding quota there is no work bound in the statement: reaching the tick cap is counted as inconclusive",
             "allocation failure is not injected (it aborts, it does not unwind); only accounting and a single-request ceiling",
             "debug profile by default (overflow checks and debug assertions on); SIM_PROFILE=release runs the same check on the release profile",
